@@ -60,8 +60,10 @@ def compare(case, impl, model, stats=None, proj=None):
             if impl["wr"] != model["wr"]:
                 out.append("attribute writes: impl %s / model %s" % (impl["wr"], model["wr"]))
             # reads of model attributes are not compared: no property is about them (an extra read is harmless)
-            if impl.get("mut_other"):
-                out.append("rating fields other than mu/sigma written: %s" % impl["mut_other"][:3])
+            # fields other than mu/sigma written on the rating objects by a call that RETURNS are the implementation's own
+            # business (private backing fields, scratch attributes); on a rejected call they count as a modification
+            if ie is not None and ie != "Arith" and impl.get("mut_other"):
+                out.append("rating fields written although the call was rejected: %s" % impl["mut_other"][:3])
     if ie is not None:
         if op == "rate" and want("objects") and ie != "Arith":
             if impl["mut"] or model.get("mut"):
